@@ -27,6 +27,9 @@ type pipeline struct {
 	execute  *core.Func // calls pkgExec in a loop
 	save     *core.Func
 	filename *core.Func
+	// the functions that invoke Generator.GenerateType / AliasGenerator.GenerateAliasType, and the one that calls them
+	dispatchers []*core.Func
+	dispatch    *core.Func
 }
 
 func findPipeline(p *core.Program, r *core.Report, rule string) *pipeline {
@@ -54,6 +57,33 @@ func findPipeline(p *core.Program, r *core.Report, rule string) *pipeline {
 		pl.save = flatten(p, f)
 	}
 	pl.filename = p.FuncByName("pkg/gengo", "(*genfile).Filename")
+	if pl.filename == nil {
+		// the exported method Filename of the file type, whatever the (unexported) type is called
+		for _, f := range p.Funcs() {
+			if f.Decl != nil && f.Decl.Recv != nil && f.Decl.Name.Name == "Filename" && core.RelPkg(f.Pkg.PkgPath) == "pkg/gengo" {
+				pl.filename = f
+			}
+		}
+	}
+	{
+		genType := "(" + core.G("pkg/gengo.Generator") + ").GenerateType"
+		genAlias := "(" + core.G("pkg/gengo.AliasGenerator") + ").GenerateAliasType"
+		isDisp := map[*core.Func]bool{}
+		for _, cs := range callersOf(p, genType, genAlias) {
+			if core.RelPkg(cs.In.Pkg.PkgPath) == "pkg/gengo" && !isDisp[cs.In.Root()] {
+				isDisp[cs.In.Root()] = true
+				pl.dispatchers = append(pl.dispatchers, cs.In.Root())
+			}
+		}
+		for _, cs := range allCalls(p) {
+			if cs.In.Body == nil {
+				continue
+			}
+			if callee := p.FuncOfObj(core.CalleeFunc(cs.In.Info(), cs.Call)); callee != nil && isDisp[callee] && !isDisp[cs.In.Root()] {
+				pl.dispatch = cs.In.Root()
+			}
+		}
+	}
 	for name, f := range map[string]*core.Func{"the per-package function (caller of os.RemoveAll in pkg/gengo)": pl.pkgExec, "the file writer (caller of os.OpenFile in pkg/gengo)": pl.write, "Execute (caller of the per-package function)": pl.execute, "pkg/sumfile.(*File).Save": pl.save, "pkg/gengo.(*genfile).Filename": pl.filename} {
 		if f == nil {
 			r.Anchor(rule, name)
@@ -364,7 +394,37 @@ func c07R4(p *core.Program, r *core.Report, pl *pipeline) {
 			}
 		}
 		// error variable of the call: paths on which err != nil leave the function
+		var werr *types.Var
+		switch st := wp.Node().(type) {
+		case *ast.AssignStmt:
+			if len(st.Rhs) == 1 && len(st.Lhs) >= 1 {
+				werr = core.VarOf(info, st.Lhs[len(st.Lhs)-1])
+			}
+		}
+		failEdge := func(b *cfgBlock, k int) bool {
+			if werr == nil || len(b.Succs) != 2 || len(b.Nodes) == 0 {
+				return false
+			}
+			e, ok := b.Nodes[len(b.Nodes)-1].(ast.Expr)
+			if !ok {
+				return false
+			}
+			for _, a := range cfgx.Atoms(e, k == 0) {
+				bb, isBin := ast.Unparen(a.Cond).(*ast.BinaryExpr)
+				if !isBin || (bb.Op != token.EQL && bb.Op != token.NEQ) || core.VarOf(info, bb.X) != werr {
+					continue
+				}
+				if id, isID := ast.Unparen(bb.Y).(*ast.Ident); isID && id.Name == "nil" && (bb.Op == token.NEQ) == a.Val {
+					// the write failed on this edge: nothing was written, nothing to strike
+					if db, _ := reachingDefs(g, werr, cfgx.Point{B: b, I: len(b.Nodes) - 1}); len(db) == 1 && db[0] == wp {
+						return true
+					}
+				}
+			}
+			return false
+		}
 		_, missed := g.Reach(wp, false, cfgx.Query{
+			CutEdge: failEdge,
 			Target: func(q cfgx.Point) bool {
 				if loop != nil && q.B.Stmt == loop && (q.B.Kind == kindRangeLoop || q.B.Kind == kindRangeDone) {
 					return true
@@ -434,7 +494,7 @@ func c07R5(p *core.Program, r *core.Report) {
 				return true
 			}
 			fld := core.FieldOf(info, as.Lhs[0])
-			if fld == nil || fld.Name() != "ignore" {
+			if !isRole(p, fld, "ctx.ignore") {
 				return true
 			}
 			tv := info.Types[as.Rhs[0]]
@@ -491,14 +551,14 @@ func c07R5(p *core.Program, r *core.Report) {
 		r.Check(propagate, rule, f, "every other generator error is propagated", f.Node().Pos(), "return err when neither sentinel matches", "a non-sentinel generator error is not returned")
 	}
 	// IsZero reads the flag
-	iz := p.FuncByName("pkg/gengo", "(*gengoCtx).IsZero")
+	iz := ctxMethod(p, "IsZero")
 	okIZ := false
 	if iz != nil && len(iz.Body.List) == 1 {
 		if ret, ok := iz.Body.List[0].(*ast.ReturnStmt); ok && len(ret.Results) == 1 {
 			atoms := cfgx.Atoms(ret.Results[0], true)
 			a, b := false, false
 			for _, at := range atoms {
-				if fld := core.FieldOf(iz.Info(), at.Cond); fld != nil && fld.Name() == "ignore" && !at.Val {
+				if fld := core.FieldOf(iz.Info(), at.Cond); isRole(p, fld, "ctx.ignore") && !at.Val {
 					a = true
 				}
 				if c, ok := ast.Unparen(at.Cond).(*ast.CallExpr); ok && strings.HasSuffix(core.CalleeName(iz.Info(), c), "genfile).IsZero") && at.Val {
